@@ -94,7 +94,7 @@ class C17:
     def rule(self, tier: str) -> str:
         return (
             "every ordered pair (original, overrides) of every listed universe of nested dictionaries, plus None "
-            "for either argument; a pair is non-trivial when both dictionaries are non-empty and share a key "
+            "for either or both arguments; a pair is non-trivial when both dictionaries are non-empty and share a key "
             "(a collision the merge has to resolve); pairs are distinct by construction (distinct specs)"
         )
 
@@ -133,6 +133,15 @@ class C17:
                     "choices": [], "trace": [], "outcome": "done",
                 })
 
+        if unit["lo"] == 0:
+            # None for BOTH arguments (once per universe)
+            try:
+                r = merge_config(None, None)
+                s["evaluations"] += 1
+                if not strict_eq(r, {}):
+                    report("result", f"merge_config(None, None) = {r!r}, expected {{}}", -1, "both-none")
+            except Exception as e:  # noqa: BLE001
+                report("raises", f"both-none: {type(e).__name__}: {e}", -1, "both-none")
         for i in range(unit["lo"], unit["hi"]):
             o = build(specs[i], leaves)
             o_pristine = build(specs[i], leaves)
@@ -208,7 +217,9 @@ class C17:
         specs = universe(keys, leaves, depth)
         o = build(specs[p["original"]], leaves) if p["original"] >= 0 else None
         j = p["overrides"]
-        if j == "orig-none":
+        if j == "both-none":
+            a, b = None, None
+        elif j == "orig-none":
             a, b = None, o
         elif j == "over-none":
             a, b = o, None
